@@ -86,8 +86,6 @@ Inductive VEq : val -> val -> Prop :=
       VEq (VD d) (VD e).
 
 (* --- paths --- *)
-Inductive pstep := PKey (k : key) | PIdx (i : nat).
-Definition path := list pstep.
 
 Definition node_child (s : pstep) (n : node) : option node :=
   match s, n with
